@@ -592,6 +592,8 @@ def gen_params(rnd, kind, *, with_q0=True, defaults_prob=0.3):
     if kind.startswith('madgwick'):
         # the data-less constructor cannot know which default gain applies: be explicit
         p['gain'] = (0.033 if kind.endswith('imu') else 0.041) if default else 10 ** rnd.uniform(-2.5, 0.5)
+        if rnd.random() < 0.1:
+            del p['gain']           # leave the choice of the default gain to the class (see known finding C06-madgwick-default-gain)
     elif kind.startswith('mahony'):
         if not default:
             p['k_P'] = 10 ** rnd.uniform(-1, 1)
